@@ -52,8 +52,8 @@ func runC07(c *Ctx) {
 	// ---- black box
 	suites := []uint16{gmtls.GMTLS_ECC_SM4_CBC_SM3, gmtls.GMTLS_ECC_SM4_GCM_SM3}
 	var faults []c07Fault
-	kinds := []string{"flip", "flip", "flip", "flip", "truncate", "extend", "swap", "dup", "drop", "inject-reverse", "inject-foreign", "hdr-type", "hdr-version", "hdr-length", "eos"}
-	n := c.Q(300, 24000)
+	kinds := []string{"flip", "flip", "flip", "flip", "truncate", "extend", "swap", "dup", "drop", "inject-reverse", "inject-foreign", "hdr-type", "hdr-version", "hdr-length", "eos", "inject-empty"}
+	n := c.Q(320, 24000)
 	for i := 0; i < n; i++ {
 		f := c07Fault{fromClient: i%2 == 0, k: r.Intn(6), kind: kinds[i%len(kinds)], arg: r.Intn(1 << 20)}
 		faults = append(faults, f)
@@ -439,6 +439,16 @@ func c07Mutator(f c07Fault, foreign *[2][]byte, armed, applied *int32) func(fc b
 			}
 			// nothing seen yet from the other direction: inject a copy of this record re-typed as from nowhere (replay of itself later)
 			return [][]byte{m, m}, false
+		case "inject-empty":
+			// a bare record header announcing zero bytes (no IV, no MAC, no tag: nothing that could authenticate it), of
+			// type application data, alert or handshake, in front of the genuine record
+			typ := []byte{23, 21, 22, 23}[f.arg%4]
+			n := 1 + (f.arg/4)%3
+			var outs [][]byte
+			for q := 0; q < n; q++ {
+				outs = append(outs, []byte{typ, m[1], m[2], 0, 0})
+			}
+			return append(outs, m), false
 		case "inject-foreign":
 			if (*foreign)[d] != nil {
 				return [][]byte{(*foreign)[d], m}, false
